@@ -167,7 +167,7 @@ fn gen_ordering(rng: &mut Rng, names: &[String]) -> String {
             ns.insert(rng.usize(ns.len() + 1), "extra".into());
         }
     }
-    let sep = rng.pick_str(&["\n", " ", ", ", " ; ", "\r\n", " and ", " \"comment\" ", " 12 ", " # ", " => ", ",", ";", "\"c\"", "|", ")(", ", ", ","]);
+    let sep = rng.pick_str(&["\n", " ", ", ", " ; ", "\r\n", " and ", " \"comment\" ", " 12 ", " # ", " => ", ",", ";", "\"c\"", "|", ")(", ", ", ",", " \"an old order:\na b c d e f\nx\" ", "\n\"\nb a\n\"\n"]);
     let mut s = ns.join(sep);
     if rng.chance(1, 3) {
         s.push('\n');
